@@ -17,6 +17,8 @@ use crate::verif::util::{fnv64, show_bytes, Counts, Rng, J};
 use crate::verif::vsys::{Clock, Disk, Event, Expect, Op, VSys, Who, RULER_DIR};
 
 pub const RULES_FILE : &str = "build.rules";
+/* some workspaces spread their rules over two files, as `ruler --rules a --rules b` allows */
+pub const RULES_FILE_2 : &str = "more.rules";
 
 /* ------------------------------------------------------------------ printer */
 
@@ -225,6 +227,8 @@ pub struct World
     pub ops : Vec<String>,
     pub has_undeclared : bool,
     pub erase_table_before_build : bool,
+    /* rules are written to one file or split over two */
+    pub two_rule_files : bool,
 }
 
 fn sources_key(sources : &[(String, Option<Vec<u8>>)]) -> String
@@ -284,7 +288,9 @@ impl World
             ops : vec![],
             has_undeclared : false,
             erase_table_before_build : false,
+            two_rule_files : false,
         };
+        world.two_rule_files = world.rng.chance(1, 4);
         for d in ["src", "in", "in/deep", "out", "gen", "gen/sub", "bin", "env"]
         {
             world.sys.user_mkdirs(d);
@@ -310,11 +316,40 @@ impl World
         self.fresh_build = None;
     }
 
+    pub fn rule_files(&self) -> Vec<String>
+    {
+        if self.two_rule_files { vec![RULES_FILE.to_string(), RULES_FILE_2.to_string()] } else { vec![RULES_FILE.to_string()] }
+    }
+
     pub fn write_rules_file(&mut self)
     {
-        let text = model::render_rules(&self.rules, &self.style, &mut self.rng);
         self.sys.tick();
-        self.sys.user_write(RULES_FILE, text.as_bytes(), false);
+        if self.two_rule_files && self.rules.len() >= 2
+        {
+            let cut = 1 + self.rng.below(self.rules.len() - 1);
+            let first = model::render_rules(&self.rules[..cut], &self.style, &mut self.rng);
+            let second = model::render_rules(&self.rules[cut..], &self.style, &mut self.rng);
+            self.sys.user_write(RULES_FILE, first.as_bytes(), false);
+            self.sys.user_write(RULES_FILE_2, second.as_bytes(), false);
+        }
+        else
+        {
+            let text = model::render_rules(&self.rules, &self.style, &mut self.rng);
+            self.sys.user_write(RULES_FILE, text.as_bytes(), false);
+            if self.two_rule_files { self.sys.user_write(RULES_FILE_2, b"", false); }
+        }
+    }
+
+    /* all rules text, for reports */
+    pub fn rules_text(&self) -> String
+    {
+        let mut text = String::from_utf8_lossy(&self.sys.read_file(RULES_FILE).unwrap_or(vec![])).to_string();
+        if self.two_rule_files
+        {
+            text.push_str("\n----- more.rules -----\n");
+            text.push_str(&String::from_utf8_lossy(&self.sys.read_file(RULES_FILE_2).unwrap_or(vec![])));
+        }
+        text
     }
 
     pub fn write_leaf(&mut self, path : &str, content : Vec<u8>)
@@ -360,7 +395,7 @@ impl World
             was_logging = fs.logging;
             fs.logging = false;
         }
-        let pack = build::get_nodes(&self.sys, vec![RULES_FILE.to_string()], goal.clone());
+        let pack = build::get_nodes(&self.sys, self.rule_files(), goal.clone());
         {
             let mut fs = self.sys.lock();
             fs.logging = was_logging;
@@ -432,20 +467,22 @@ impl World
         let mut printer = RecPrinter { log : PrintLog::default() };
         let sys = self.sys.clone();
         let params_goal = goal.clone();
+        let rule_files = self.rule_files();
+        let rule_files_2 = rule_files.clone();
         let observer : Arc<dyn shim::SendObserver> = Arc::new(self.sys.clone());
         let (result, report) = match choice.free
         {
             None => shim::run_controlled(choice.policy.clone(), choice.seed, Some(observer), choice.step_limit, ||
             {
                 build::build(sys, &mut printer, BuildParams::from_all(
-                    RULER_DIR.to_string(), vec![RULES_FILE.to_string()], None, params_goal))
+                    RULER_DIR.to_string(), rule_files, None, params_goal))
             }),
             Some(jitter) =>
             {
                 let (value, free_report) = shim::run_free(choice.seed, jitter, Some(observer), ||
                 {
                     build::build(sys, &mut printer, BuildParams::from_all(
-                        RULER_DIR.to_string(), vec![RULES_FILE.to_string()], None, params_goal))
+                        RULER_DIR.to_string(), rule_files_2, None, params_goal))
                 });
                 let mut report = RunReport::default();
                 report.threads = free_report.threads;
@@ -468,17 +505,19 @@ impl World
 
         let sys = self.sys.clone();
         let params_goal = goal.clone();
+        let rule_files = self.rule_files();
+        let rule_files_2 = rule_files.clone();
         let (result, report) = match choice.free
         {
             None => shim::run_controlled(choice.policy.clone(), choice.seed, None, choice.step_limit, ||
             {
-                build::clean(sys, RULER_DIR, vec![RULES_FILE.to_string()], params_goal)
+                build::clean(sys, RULER_DIR, rule_files, params_goal)
             }),
             Some(jitter) =>
             {
                 let (value, free_report) = shim::run_free(choice.seed, jitter, None, ||
                 {
-                    build::clean(sys, RULER_DIR, vec![RULES_FILE.to_string()], params_goal)
+                    build::clean(sys, RULER_DIR, rule_files_2, params_goal)
                 });
                 let mut report = RunReport::default();
                 report.threads = free_report.threads;
